@@ -243,6 +243,10 @@ pub struct ClientSpec {
     /// a status client takes this long between the Status Response and its Ping
     #[serde(default)]
     pub ping_delay_ns: u64,
+    /// (requested key, key the answer is sent under): the client answers a Cookie Request under another key, with the
+    /// cookie it holds for that other key
+    #[serde(default, skip_serializing_if = "Vec::is_empty")]
+    pub cookie_rekey: Vec<(String, String)>,
     /// seed for the client's own padding / random tokens
     pub rng: u64,
 }
@@ -285,6 +289,7 @@ impl ClientSpec {
             coalesce: false,
             early_ack: false,
             len_pad: 0,
+            cookie_rekey: vec![],
             info: default_info(),
             ping_delay_ns: 0,
             rng: rng.next_u64(),
@@ -759,7 +764,8 @@ impl<'a> Engine<'a> {
             "Pong" => self.end(),
             "CookieRequest" => {
                 if reactive && self.phase == Phase::Login {
-                    let key = f["key"].as_str().unwrap_or("").to_string();
+                    let asked = f["key"].as_str().unwrap_or("").to_string();
+                    let key = self.spec.cookie_rekey.iter().find(|(a, _)| *a == asked).map(|(_, b)| b.clone()).unwrap_or(asked);
                     let payload = match key.as_str() {
                         "passage:session" => self.spec.session_cookie.clone(),
                         "passage:authentication" => self.spec.auth_cookie.clone(),
